@@ -20,6 +20,16 @@ from harness import core
 from harness import lib_front as lf
 
 
+def same_value(w, r) -> bool:
+    """Expected vs. runtime value: tensors (shape and contents), sequences (lists), absent optionals (None)."""
+    if w is None or r is None:
+        return w is None and r is None
+    if isinstance(w, list) or isinstance(r, list):
+        return isinstance(w, list) and isinstance(r, list) and len(w) == len(r) and all(same_value(a, b) for a, b in zip(w, r))
+    return np.shape(r) == np.shape(w) and bool(np.allclose(
+        np.asarray(w, dtype=np.float64), np.asarray(r, dtype=np.float64), rtol=1e-5, atol=1e-6))
+
+
 # ----------------------------------------------------------------------------- oracle (no Lean model involved)
 def judge(prog, req, got_kind, got, values=None):
     """Compare an observation with what the property prescribes. Returns [(key, what)].
@@ -59,9 +69,7 @@ def judge(prog, req, got_kind, got, values=None):
     if values is not None and not bad:
         want, res = values
         for (name, _), w, r in zip(eout, want, res):
-            if np.shape(r) != np.shape(w) or not np.allclose(
-                np.asarray(w, dtype=np.float64), np.asarray(r, dtype=np.float64), rtol=1e-5, atol=1e-6
-            ):
+            if not same_value(w, r):
                 bad.append((f"{d}:outputs:value", f"output {name} evaluates to {r!r}, the requested Var to {w!r}"))
                 break
     return bad
@@ -184,6 +192,16 @@ def run(ck: core.Check):
     for _ in range(n_prog):
         prog = lf.gen_program(rng)
         reqs = [lf.gen_request(rng, prog, allow_dup=(rng.random() < 0.15)) for _ in range(3)]
+        # the requests of one program form a history over the same Vars (nothing is reset in between);
+        # most programs also get a directed pair: a build failing inside the block, then a request that
+        # must raise KeyError unless the failed build left names behind
+        if rng.random() < 0.7:
+            pair = lf.gen_stale_name_pair(rng, prog)
+            if pair is not None:
+                at = rng.randrange(len(reqs) + 1)
+                reqs[at:at] = list(pair)
+                if rng.random() < 0.5:
+                    reqs.append(lf.gen_request(rng, prog))
         cases.append((prog, reqs))
 
     # ---- correspondence + in-process oracle
@@ -212,6 +230,7 @@ def run(ck: core.Check):
             refs = o_["deps"] + [x for b in o_["subs"] for x in b["formals"] + b["results"]]
             if any(r_ >= i_ for r_ in refs):
                 ck.broken("correspondence", "C03 generated program violates WF (reference to a newer object)", str(o_))
+        done_here = []  # earlier requests on these very Vars
         for req in reqs:
             m = model[k]
             k += 1
@@ -238,9 +257,9 @@ def run(ck: core.Check):
             for key, what in bad:
                 small = shrink(prog, req, key, lambda p, r: oracle_inproc(p, r, env, with_values=key.endswith("value"), feed_seed=k)[0])
                 ck.failure(key, what, {"prog": prog, "req": small, "mode": "inproc", "feed_seed": k,
-                                       "prelude": [{"prog": p_, "reqs": [r_]} for p_, r_ in recent[-2:]]})
-            recent.append((prog, req))
-            del recent[:-2]
+                                       "before": list(done_here),
+                                       "prelude": [{"prog": p_, "reqs": rs_} for p_, rs_ in recent[-2:]]})
+            done_here.append(req)
             # correspondence
             if m is not None:
                 if "error" in m:
@@ -255,19 +274,16 @@ def run(ck: core.Check):
                     ok = m["res"].get("err") == got[1]
                 if ok and "names" in m:
                     ok = m["names"] == names_after
+                if m.get("wf") is not True and "error" not in m:
+                    ck.broken("correspondence", "C03 generated program violates the model's WF hypothesis (wfb = false)", str(lf.to_objs(prog))[:600])
                 if not ok:
                     mism += 1
                     if mism <= 3:
                         real = lf.observed(got[1]) if got[0] == "ok" else got[1]
                         ck.broken("correspondence", "C03 front-end model vs spox.build",
                                   f"req={req} objs={lf.to_objs(prog)} model={m} real={real} names={names_after}")
-            # leave no trace for the next request even if the code under test did (C12 judges that)
-            for i, v in env.items():
-                try:
-                    if getattr(v, "_name", None) is not None:
-                        v._rename(None)
-                except Exception as e:  # noqa: BLE001
-                    ck.broken("correspondence", "Var._rename not observable (cannot reset names between requests)", str(e))
+        recent.append((prog, list(done_here)))
+        del recent[:-2]
 
     # ---- fresh processes, several hash seeds: same judgement, plus run-to-run stability
     hashseeds = list(range(ck.pick(6, 32)))
@@ -320,7 +336,10 @@ def replay(ck: core.Check, doc) -> bool:
         env = lf.realize(pre["prog"])
         for r in pre["reqs"]:
             lf.run_build(env, r)
-    bad, _ = oracle_inproc(prog, req, None, with_values=True, feed_seed=case.get("feed_seed", 0))
+    env = lf.realize(prog)
+    for r in case.get("before", []):  # the earlier requests over the same Vars
+        lf.run_build(env, r)
+    bad, _ = oracle_inproc(prog, req, env, with_values=True, feed_seed=case.get("feed_seed", 0))
     for key, what in bad:
         print(f"{key}: {what}")
     if bad:
